@@ -53,6 +53,8 @@ func (p *Profile) props(m Mismatch) map[string]bool {
 				delete(out, "C02")
 			}
 		}
+	case "single slot holds an earlier message":
+		out["C03"] = true
 	case "message type", "slot count", "accessors", "accessor succeeds for an unsupported file type", "file type",
 		"file_creator presence", "timestamp_correlation presence":
 		if !errd || what == "accessors" || what == "file type" {
